@@ -65,6 +65,13 @@ func genC17(g *Gen) {
 		g.un("Sqrt", x)
 		g.un("Cbrt", x)
 	})
+	// solved arguments whose root lies 1e-20 .. 1e-15 ulp below a rounding midpoint (see rootNearMidpoint)
+	g.gridRun(2*300, 0.25, func(i int) {
+		if x, ok := g.rootNearMidpoint(2 + i%2); ok {
+			gridHits["rootNearMidpoint"]++
+			g.un([]string{"Sqrt", "Cbrt"}[i%2], x)
+		}
+	})
 	for !g.w.full() {
 		switch g.r.Intn(12) {
 		case 0:
@@ -136,6 +143,37 @@ func genC15(g *Gen) {
 	unary := []string{"Exp", "Exp2", "Exp10", "Expm1", "Log", "Log2", "Log10", "Log1p", "Sqrt", "Cbrt"}
 	g.powSignGrid(0.05)
 	g.powPaddedIntGrid(0.05)
+	// classification of finite operands in every encoding: each special coefficient (0, 2^113 in the second coefficient
+	// layout, the single-bit ones ...) at every residue of the stored exponent through the predicates and through one call
+	// of each family whose prologue asks "is it zero / special": a non-zero value taken for zero gives a special-case result
+	classify := func(x d128.Decimal, i int) {
+		for _, op := range []string{"IsNaN", "IsZero", "Sign"} {
+			g.un(op, x)
+		}
+		e := Ev{"op": "IsInf", "sgn": 0}
+		e.setDec("x", x)
+		g.emit(e)
+		inf, three := g.variant(d128.Inf(1-2*(i%2))), mk(false, big.NewInt(3), 0)
+		switch i % 5 {
+		case 0:
+			g.bin("Mul", x, inf, g.r.Intn(6)) // 0 * Inf is the only NaN
+			g.bin("Quo", three, x, g.r.Intn(6))
+		case 1:
+			g.bin("Quo", x, x, g.r.Intn(6)) // 0/0 is the only NaN
+			g.bin("QuoRem", three, x, g.r.Intn(6))
+		case 2:
+			g.bin("Pow", x, inf, g.r.Intn(6))
+			g.bin("Pow", inf, x, g.r.Intn(6))
+		case 3:
+			g.un([]string{"Log", "Log2", "Log10", "Sqrt", "Cbrt"}[(i/5)%5], x)
+		default:
+			g.bin("Quo", inf, x, g.r.Intn(6))
+			g.bin("Add", x, x.Neg(), g.r.Intn(6))
+		}
+	}
+	ci := 0
+	g.encodingGrid(0.12, func(x d128.Decimal) { classify(x, ci); ci++ })
+	g.bitGrid(0.06, func(x d128.Decimal) { classify(x, ci); ci++ })
 	for !g.w.full() {
 		x, y := g.classRep(), g.classRep()
 		m := g.r.Intn(6)
